@@ -18,6 +18,125 @@ func init() {
 	gen.RegisterOp("c14", "trace", func(c *gen.Ctx, raw json.RawMessage) any {
 		return c14Trace(c, gen.Into[c14TraceIn](raw))
 	})
+	gen.RegisterOp("c14", "handler", func(_ *gen.Ctx, raw json.RawMessage) any {
+		return c14Handler(gen.Into[c14HandlerIn](raw))
+	})
+	gen.RegisterOp("c14", "rt", func(_ *gen.Ctx, raw json.RawMessage) any {
+		return c14RoundTrip(gen.Into[c14RTIn](raw))
+	})
+}
+
+// c14Side describes the headers and the scripted body of one direction.
+type c14Side struct {
+	CT     string   `json:"ct"`
+	CE     string   `json:"ce"`
+	CCE    string   `json:"cce"`
+	GE     string   `json:"ge"`
+	Reads  []string `json:"reads"`  // hex chunks (request: what the body returns; handler response: unused)
+	Ending string   `json:"ending"` // eof | eofdata | err | errdata | close | closeerr | none
+	Post   []string `json:"post"`
+}
+
+func (s c14Side) headers() http.Header {
+	return c14Headers(c14TraceIn{CT: s.CT, CE: s.CE, CCE: s.CCE, GE: s.GE})
+}
+
+// script builds the inner reader and the caller's actions for a body read to its ending.
+func (s c14Side) script() (*tracer.VerifScriptReader, []string) {
+	chunks := c14Unhex(s.Reads)
+	errs := make([]string, len(chunks))
+	endErr := "eof"
+	if strings.HasPrefix(s.Ending, "err") {
+		endErr = "inner"
+	}
+	closeErr := ""
+	switch s.Ending {
+	case "eof", "err":
+		chunks = append(chunks, nil)
+		errs = append(errs, endErr)
+	case "eofdata", "errdata":
+		if len(chunks) == 0 {
+			chunks = append(chunks, nil)
+			errs = append(errs, "")
+		}
+		errs[len(errs)-1] = endErr
+	case "closeerr":
+		closeErr = "inner"
+	}
+	var actions []string
+	for range chunks {
+		actions = append(actions, "r")
+	}
+	if s.Ending == "close" || s.Ending == "closeerr" {
+		actions = append(actions, "c")
+	}
+	actions = append(actions, s.Post...)
+	return tracer.VerifNewScriptReader(chunks, errs, closeErr), actions
+}
+
+func (s c14Side) body() []byte {
+	var b []byte
+	for _, ch := range c14Unhex(s.Reads) {
+		b = append(b, ch...)
+	}
+	return b
+}
+
+type c14HandlerIn struct {
+	Req     c14Side               `json:"req"`
+	Resp    c14Side               `json:"resp"` // headers only
+	Actions []tracer.VerifHAction `json:"actions"`
+	Accept  int                   `json:"accept"`
+}
+type c14HandlerOut struct {
+	Traced tracer.VerifHandlerOut `json:"traced"`
+	Plain  tracer.VerifHandlerOut `json:"plain"`
+	Dec    [][3]string            `json:"dec"`
+}
+
+func c14Handler(in c14HandlerIn) c14HandlerOut {
+	var pre []tracer.VerifHAction
+	for _, kv := range [][2]string{{"Content-Type", in.Resp.CT}, {"Content-Encoding", in.Resp.CE}, {"Connect-Content-Encoding", in.Resp.CCE}, {"Grpc-Encoding", in.Resp.GE}} {
+		if kv[1] != "" {
+			pre = append(pre, tracer.VerifHAction{Kind: "set", Key: kv[0], Val: kv[1]})
+		}
+	}
+	actions := append(pre, in.Actions...)
+	var out c14HandlerOut
+	run := func(traced bool) tracer.VerifHandlerOut {
+		body, _ := in.Req.script()
+		return tracer.VerifServeHandler(traced, in.Req.headers(), body, actions, in.Accept)
+	}
+	out.Traced = run(true)
+	out.Plain = run(false)
+	var written []byte
+	for _, a := range in.Actions {
+		if a.Kind == "w" {
+			written = append(written, c14Unhex([]string{a.Data})[0]...)
+		}
+	}
+	out.Dec = c14DecTable(written, []string{in.Resp.CCE, in.Resp.GE})
+	return out
+}
+
+type c14RTIn struct {
+	Req    c14Side `json:"req"`
+	Fail   bool    `json:"fail"`
+	Status int     `json:"status"`
+	Resp   c14Side `json:"resp"`
+}
+type c14RTOut struct {
+	tracer.VerifRoundTripOut
+	Dec [][3]string `json:"dec"`
+}
+
+func c14RoundTrip(in c14RTIn) c14RTOut {
+	reqBody, _ := in.Req.script()
+	respBody, actions := in.Resp.script()
+	var out c14RTOut
+	out.VerifRoundTripOut = tracer.VerifRoundTrip(in.Req.headers(), reqBody, in.Fail, in.Status, in.Resp.headers(), respBody, actions)
+	out.Dec = c14DecTable(in.Resp.body(), []string{in.Resp.CCE, in.Resp.GE})
+	return out
 }
 
 // c14TraceIn describes one session of a tracing reader over a scripted body.
@@ -173,7 +292,13 @@ func c14Trace(_ *gen.Ctx, in c14TraceIn) c14TraceOut {
 	actions = append(actions, in.Post...)
 	inner := tracer.VerifNewScriptReader(chunks, errs, closeErr)
 	var out c14TraceOut
-	out.VerifReaderOut = tracer.VerifTraceReader(in.Side == "req", in.Client, c14Headers(in), inner, actions, 1<<16)
+	bufSize := 7 // the caller's buffer: a little larger than the largest chunk
+	for _, ch := range chunks {
+		if len(ch)+7 > bufSize {
+			bufSize = len(ch) + 7
+		}
+	}
+	out.VerifReaderOut = tracer.VerifTraceReader(in.Side == "req", in.Client, c14Headers(in), inner, actions, bufSize)
 	var body []byte
 	for _, ch := range c14Unhex(in.Reads) {
 		body = append(body, ch...)
@@ -286,84 +411,12 @@ func runC14(c *gen.Ctx) error {
 	if c.Thorough() {
 		nRand = 250000
 	}
-	contents := [][]byte{[]byte("{}"), []byte(`{"error":{"code":"internal","message":"x"},"metadata":{"a":["b"]}}`), []byte("grpc-status: 0\r\ngrpc-message: ok\r\n"), []byte("x")}
 	for i := 0; i < nRand; i++ {
+		side, body := c14RandSide(c)
 		var in c14TraceIn
 		in.Side = both[r.Intn(2)]
 		in.Client = r.Bool()
-		enc := gen.Pick(r, c14Encs)
-		switch r.Intn(12) {
-		case 0:
-			enc = strings.ToUpper(enc)
-		case 1:
-			enc = "bogus"
-		}
-		stream := r.Chance(9, 10)
-		if stream {
-			c14Proto(&in, gen.Pick(r, c14StreamCT), enc, gen.Pick(r, c14Encs))
-			if r.Chance(1, 25) {
-				in.CE = gen.Pick(r, []string{"gzip", "identity", "br"})
-			}
-		} else {
-			c14Proto(&in, gen.Pick(r, c14PlainCT), enc, gen.Pick(r, c14Encs))
-		}
-		nMsg := r.Intn(6)
-		endPos := -1 // index of the end-stream message
-		switch r.Intn(4) {
-		case 0, 1:
-			endPos = nMsg - 1
-		case 2:
-			if nMsg > 0 {
-				endPos = r.Intn(nMsg)
-			}
-		}
-		var body []byte
-		for m := 0; m < nMsg; m++ {
-			var flags byte
-			if r.Chance(1, 8) {
-				flags = byte(r.Intn(256))
-			} else {
-				flags = gen.Pick(r, []byte{0, 0, 0, 1, 1, 3, 0x81})
-			}
-			var payload []byte
-			if m == endPos {
-				flags = gen.Pick(r, []byte{2, 2, 0x80, 0x80, 3, 0x81, 0x82, 0x83})
-				content := gen.Pick(r, contents)
-				if r.Chance(1, 6) {
-					content = r.Bytes(r.Intn(7))
-				}
-				honest := r.Chance(3, 4)
-				if (flags&1 == 1) == honest {
-					payload = c14Compress(enc, content)
-					e.Count("end-stream:compressed-payload")
-				} else {
-					payload = content
-					e.Count("end-stream:raw-payload")
-				}
-				if flags&1 == 1 {
-					e.Count("end-stream:flag-compressed")
-				} else {
-					e.Count("end-stream:flag-uncompressed")
-				}
-			} else if r.Chance(7, 10) {
-				payload = r.Bytes(r.Intn(7))
-			} else {
-				payload = r.Bytes(r.Intn(301))
-			}
-			body = append(body, c14Env(flags, payload)...)
-		}
-		if r.Chance(1, 10) {
-			// stray bytes: a partial prefix, or a prefix announcing more than follows (the
-			// announced length stays moderate: the tracer pre-allocates that much)
-			if r.Bool() {
-				body = append(body, r.Bytes(r.Range(1, 4))...)
-			} else {
-				n := r.Range(1, 70000)
-				stray := c14Env(byte(r.Intn(256)), r.Bytes(r.Intn(6)))
-				binary.BigEndian.PutUint32(stray[1:], uint32(n+5))
-				body = append(body, stray...)
-			}
-		}
+		in.CT, in.CE, in.CCE, in.GE = side.CT, side.CE, side.CCE, side.GE
 		var cuts []int
 		if len(body) <= 64 && r.Chance(1, 12) {
 			for k := 0; k <= len(body); k++ {
@@ -376,41 +429,218 @@ func runC14(c *gen.Ctx) error {
 			cuts = []int{r.Intn(len(body) + 1)}
 		}
 		for _, k := range cuts {
-			b := body[:k]
-			// random chunking
-			var sizes []int
-			rest := len(b)
-			for rest > 0 {
-				var s int
-				switch r.Intn(4) {
-				case 0:
-					s = r.Range(1, 5)
-				case 1:
-					s = r.Range(1, 40)
-				case 2:
-					s = rest
-				default:
-					s = r.Range(0, 9)
-				}
-				if s > rest {
-					s = rest
-				}
-				sizes = append(sizes, s)
-				rest -= s
-			}
-			if r.Chance(1, 10) {
-				sizes = append(sizes, 0)
-			}
 			in2 := in
-			in2.Reads = c14Cut(b, sizes)
+			in2.Reads = c14RandChunks(r, body[:k])
 			in2.Ending = gen.Pick(r, c14Endings)
-			in2.Post = []string{}
-			for n := r.Intn(3); n > 0 && r.Chance(1, 2); n-- {
-				in2.Post = append(in2.Post, gen.Pick(r, []string{"c", "r"}))
-			}
+			in2.Post = c14RandPost(r)
 			c.Do("trace", in2)
 			e.Count("random")
 		}
 	}
+	// (e) the middleware wiring: real TracingHandler (tracingResponseWriter) and TracingRoundTripper
+	nMid := 2500
+	if c.Thorough() {
+		nMid = 40000
+	}
+	for i := 0; i < nMid; i++ {
+		// server side
+		var h c14HandlerIn
+		reqSide, reqBody := c14RandSide(c)
+		if r.Chance(1, 2) {
+			reqBody = reqBody[:r.Intn(len(reqBody)+1)]
+		}
+		h.Req = reqSide
+		h.Req.Reads = c14RandChunks(r, reqBody)
+		h.Req.Ending = gen.Pick(r, []string{"eof", "eof", "eofdata", "err", "errdata"})
+		h.Req.Post = []string{}
+		respSide, respBody := c14RandSide(c)
+		if r.Chance(1, 3) {
+			respBody = respBody[:r.Intn(len(respBody)+1)]
+		}
+		h.Resp = respSide
+		h.Resp.Reads, h.Resp.Post = []string{}, []string{}
+		writes := c14RandChunks(r, respBody)
+		nReads := len(h.Req.Reads) + 1
+		switch r.Intn(4) {
+		case 0:
+			nReads = r.Intn(nReads + 1) // the handler does not read the whole request
+		case 1:
+			nReads += r.Intn(3) // reads past the end
+		}
+		// interleave reads and writes at random
+		ri, wi := 0, 0
+		h.Actions = []tracer.VerifHAction{}
+		if r.Chance(1, 4) {
+			h.Actions = append(h.Actions, tracer.VerifHAction{Kind: "wh", Status: gen.Pick(r, []int{200, 200, 404, 500})})
+		}
+		for ri < nReads || wi < len(writes) {
+			switch {
+			case wi >= len(writes) || (ri < nReads && r.Chance(1, 2)):
+				h.Actions = append(h.Actions, tracer.VerifHAction{Kind: "read"})
+				ri++
+			default:
+				h.Actions = append(h.Actions, tracer.VerifHAction{Kind: "w", Data: writes[wi]})
+				wi++
+				if r.Chance(1, 6) {
+					h.Actions = append(h.Actions, tracer.VerifHAction{Kind: "flush"})
+				}
+			}
+			if r.Chance(1, 40) {
+				h.Actions = append(h.Actions, tracer.VerifHAction{Kind: "closeReq"})
+			}
+		}
+		if r.Chance(1, 3) {
+			h.Actions = append(h.Actions, tracer.VerifHAction{Kind: "set", Key: gen.Pick(r, []string{"Trailer:X-T", "Grpc-Status", "X-Late"}), Val: "v"})
+		}
+		if r.Chance(1, 12) {
+			at := r.Intn(len(h.Actions) + 1)
+			h.Actions = append(h.Actions[:at:at], append([]tracer.VerifHAction{{Kind: "panic"}}, h.Actions[at:]...)...)
+		}
+		h.Accept = -1
+		if r.Chance(1, 4) {
+			h.Accept = r.Intn(len(respBody) + 2)
+		}
+		c.Do("handler", h)
+		// client side
+		var rt c14RTIn
+		reqSide, reqBody = c14RandSide(c)
+		if r.Chance(1, 3) {
+			reqBody = reqBody[:r.Intn(len(reqBody)+1)]
+		}
+		rt.Req = reqSide
+		rt.Req.Reads = c14RandChunks(r, reqBody)
+		rt.Req.Ending = gen.Pick(r, []string{"eof", "eof", "eof", "eofdata", "err", "errdata"})
+		rt.Req.Post = []string{}
+		respSide, respBody = c14RandSide(c)
+		if r.Chance(1, 3) {
+			respBody = respBody[:r.Intn(len(respBody)+1)]
+		}
+		rt.Resp = respSide
+		rt.Resp.Reads = c14RandChunks(r, respBody)
+		rt.Resp.Ending = gen.Pick(r, c14Endings)
+		rt.Resp.Post = c14RandPost(r)
+		rt.Fail = r.Chance(1, 8)
+		rt.Status = gen.Pick(r, []int{200, 200, 200, 404, 503})
+		c.Do("rt", rt)
+	}
 	return nil
+}
+
+func c14RandPost(r *gen.Rand) []string {
+	post := []string{}
+	for n := r.Intn(3); n > 0 && r.Chance(1, 2); n-- {
+		post = append(post, gen.Pick(r, []string{"c", "r"}))
+	}
+	return post
+}
+
+// c14RandChunks cuts b at random places (sometimes with empty chunks).
+func c14RandChunks(r *gen.Rand, b []byte) []string {
+	var sizes []int
+	rest := len(b)
+	for rest > 0 {
+		var s int
+		switch r.Intn(4) {
+		case 0:
+			s = r.Range(1, 5)
+		case 1:
+			s = r.Range(1, 40)
+		case 2:
+			s = rest
+		default:
+			s = r.Range(0, 9)
+		}
+		if s > rest {
+			s = rest
+		}
+		sizes = append(sizes, s)
+		rest -= s
+	}
+	if r.Chance(1, 10) {
+		sizes = append(sizes, 0)
+	}
+	return c14Cut(b, sizes)
+}
+
+var c14Contents = [][]byte{[]byte("{}"), []byte(`{"error":{"code":"internal","message":"x"},"metadata":{"a":["b"]}}`), []byte("grpc-status: 0\r\ngrpc-message: ok\r\n"), []byte("x")}
+
+// c14RandSide picks a protocol, encodings and a body of enveloped messages (flags from
+// {0,1,2,3,0x80,0x81,0x82,random}, lengths 0..6 or up to 300, an end-stream message last, in the
+// middle or absent, its payload really compressed or not, independently of its flag).
+func c14RandSide(c *gen.Ctx) (c14Side, []byte) {
+	r, e := c.R, c.E
+	var in c14TraceIn
+	enc := gen.Pick(r, c14Encs)
+	switch r.Intn(12) {
+	case 0:
+		enc = strings.ToUpper(enc)
+	case 1:
+		enc = "bogus"
+	}
+	if r.Chance(9, 10) {
+		c14Proto(&in, gen.Pick(r, c14StreamCT), enc, gen.Pick(r, c14Encs))
+		if r.Chance(1, 25) {
+			in.CE = gen.Pick(r, []string{"gzip", "identity", "br"})
+		}
+	} else {
+		c14Proto(&in, gen.Pick(r, c14PlainCT), enc, gen.Pick(r, c14Encs))
+	}
+	nMsg := r.Intn(6)
+	endPos := -1 // index of the end-stream message
+	switch r.Intn(4) {
+	case 0, 1:
+		endPos = nMsg - 1
+	case 2:
+		if nMsg > 0 {
+			endPos = r.Intn(nMsg)
+		}
+	}
+	var body []byte
+	for m := 0; m < nMsg; m++ {
+		var flags byte
+		if r.Chance(1, 8) {
+			flags = byte(r.Intn(256))
+		} else {
+			flags = gen.Pick(r, []byte{0, 0, 0, 1, 1, 3, 0x81})
+		}
+		var payload []byte
+		if m == endPos {
+			flags = gen.Pick(r, []byte{2, 2, 0x80, 0x80, 3, 0x81, 0x82, 0x83})
+			content := gen.Pick(r, c14Contents)
+			if r.Chance(1, 6) {
+				content = r.Bytes(r.Intn(7))
+			}
+			honest := r.Chance(3, 4)
+			if (flags&1 == 1) == honest {
+				payload = c14Compress(enc, content)
+				e.Count("end-stream:compressed-payload")
+			} else {
+				payload = content
+				e.Count("end-stream:raw-payload")
+			}
+			if flags&1 == 1 {
+				e.Count("end-stream:flag-compressed")
+			} else {
+				e.Count("end-stream:flag-uncompressed")
+			}
+		} else if r.Chance(7, 10) {
+			payload = r.Bytes(r.Intn(7))
+		} else {
+			payload = r.Bytes(r.Intn(301))
+		}
+		body = append(body, c14Env(flags, payload)...)
+	}
+	if r.Chance(1, 10) {
+		// stray bytes: a partial prefix, or a prefix announcing more than follows (the
+		// announced length stays moderate: the tracer pre-allocates that much)
+		if r.Bool() {
+			body = append(body, r.Bytes(r.Range(1, 4))...)
+		} else {
+			n := r.Range(1, 70000)
+			stray := c14Env(byte(r.Intn(256)), r.Bytes(r.Intn(6)))
+			binary.BigEndian.PutUint32(stray[1:], uint32(n+5))
+			body = append(body, stray...)
+		}
+	}
+	return c14Side{CT: in.CT, CE: in.CE, CCE: in.CCE, GE: in.GE}, body
 }
